@@ -87,4 +87,23 @@ Section AbfSystem.
       exact (resumable_resumes _ _ _ _ _ _ _
                (cascade_resumable _ _ wire_abf _ _ _ _ _ _ _ _ _ _ _ _ wire_eq0 wire_eq HL' HA)).
   Qed.
+
+  (* eABF resumes: the extended coordinate, the spring force on the atoms, the ABF force, and the final
+     x / extended_x / extended_v / samples / gradients *)
+  Theorem eabf_resumes :
+    resumes_like_uninterrupted (eabf_machine O)
+      (fun c => abf_ok (snd c))
+      (xl_out_eq (@abf_out_eq0 T)) (xl_out_eq (@abf_out_eq T))
+      (fun v v' => fst v = fst v' /\ snd v = snd v').
+  Proof.
+    apply resumes_uninterrupted_of_go_on.
+    - intros c s. destruct s as [sx sa]. reflexivity.
+    - pose proof (abf_resumable O) as HA.
+      assert (F0 : forall o o', @abf_out_eq0 T o o' -> eabf_force O o = eabf_force O o').
+      { intros o o' (_ & _ & _ & Hf). unfold eabf_force. rewrite Hf. reflexivity. }
+      assert (F1 : forall o o', @abf_out_eq T o o' -> eabf_force O o = eabf_force O o').
+      { intros o o' [H _]. apply F0; auto. }
+      exact (resumable_resumes _ _ _ _ _ _ _
+               (extlag_resumable O (abf_machine O) (eabf_force O) (eabf_bin O) _ _ _ _ _ _ F0 F1 HA)).
+  Qed.
 End AbfSystem.
